@@ -16,9 +16,14 @@ type InstCfg struct {
 	Full bool
 	TR   uint8  // MapPollard.TotalRows set before first use
 	Mode string // partial maps: which added leaves get Remember: all | even | none
+	NoRT bool   // twin: never serialized/restored; the preceding instance is compared with it (C13)
 }
 
 func (c InstCfg) Name() string {
+	if c.NoRT {
+		c.NoRT = false
+		return c.Name() + "[never serialized]"
+	}
 	switch c.Kind {
 	case "map":
 		if c.Full {
@@ -101,6 +106,7 @@ type HistOracle struct {
 	Roots   bool // C01
 	Proofs  bool // C02
 	Lookups bool // C10
+	Twin    bool // C13: instance i is compared with its never-serialized twin i+1 (GetHash on every position, leaf positions)
 	// OnlyAfter restricts reporting to states whose history contains this op kind
 	// ("undo" for C06, "roundtrip" for C13); "" reports everywhere.
 	OnlyAfter string
@@ -293,7 +299,7 @@ func (f *HistFamily) apply(x *Exec, insts []*inst, md *histModel, op Op) bool {
 		md.hasUndo = true
 	case "roundtrip":
 		for _, in := range insts {
-			if in.broken || in.stump != nil {
+			if in.broken || in.stump != nil || in.cfg.NoRT {
 				continue
 			}
 			if err := roundTrip(x, f.Or.Prop, in); err != nil {
@@ -359,6 +365,9 @@ func roundTrip(x *Exec, prop string, in *inst) error {
 		return nil
 	}
 	var n int
+	// own the map iteration order of Write (ascending)
+	in.m.Nodes = &orderedNodes{in.m.Nodes, false}
+	in.m.CachedLeaves = &orderedCached{in.m.CachedLeaves, false}
 	err := safe(func() error { var e error; n, e = in.m.Write(&buf); return e })
 	if err != nil {
 		x.Report(prop, "Write failed on MapPollard", err.Error())
@@ -472,6 +481,30 @@ func (f *HistFamily) observe(x *Exec, insts []*inst, md *histModel, report bool)
 	}
 	if f.Or.Proofs {
 		evals += f.observeProofs(x, prop, insts, md, L)
+	}
+	if f.Or.Twin {
+		for i := 0; i+1 < len(insts); i++ {
+			a, b := insts[i], insts[i+1]
+			if !b.cfg.NoRT || a.cfg.NoRT || a.broken || b.broken || a.acc == nil {
+				continue
+			}
+			evals++
+			maxp := (uint64(2) << L.R) + 3
+			for p := uint64(0); p < maxp; p++ {
+				if ha, hb := a.acc.GetHash(p), b.acc.GetHash(p); ha != hb {
+					x.Report(prop, "a restored forest evolves differently from the original: GetHash differs on "+a.cfg.Class(), fmt.Sprintf("%s pos %d: restored %x original %x", a.cfg.Name(), p, ha[:4], hb[:4]))
+					break
+				}
+			}
+			for sl := 0; sl < md.s.N(); sl++ {
+				pa, fa := a.acc.GetLeafPosition(ref.LeafHash(sl))
+				pb, fb := b.acc.GetLeafPosition(ref.LeafHash(sl))
+				if pa != pb || fa != fb {
+					x.Report(prop, "a restored forest evolves differently from the original: GetLeafPosition differs on "+a.cfg.Class(), fmt.Sprintf("%s slot %d: restored (%d,%v) original (%d,%v)", a.cfg.Name(), sl, pa, fa, pb, fb))
+					break
+				}
+			}
+		}
 	}
 	return evals
 }
